@@ -51,7 +51,7 @@ static uintptr_t SV_make(uintptr_t p, uintptr_t m) { XV_XASSERT((p & SV_BIT) == 
 #define SV_mark(v) ((uintptr_t)((v) >> 63))
 
 /* ---------------- glue for the lowered text ---------------- */
-static void g_ctor(struct guard*, mptr); static void g_reset(struct guard*); static void g_do_swap(struct guard*, struct guard*);
+static void g_ctor(struct guard*, mptr); static void g_reset(struct guard*); static void g_do_swap(struct guard*, struct guard*); static void g_swap(struct guard* self, struct guard* g);
 #define XV_DERIVED_do_swap(self, g) g_do_swap((self), (g))      /* self().do_swap(g): static dispatch to hazard_pointer::guard_ptr::do_swap */
 static void hp_set_object(struct hp_slot*, uintptr_t); static void hp_set_link(struct hp_slot*, struct hp_slot*);
 static struct hp_slot* hp_get_link(struct hp_slot*); static _Bool hp_is_link(struct hp_slot*);
